@@ -276,13 +276,19 @@ Inductive result :=
 | RErr                              (* (nil, err) *)
 | ROut (x : v).                     (* a new event with this payload *)
 
-(* reflect.ValueOf(payload).IsZero() for the payload shapes of the grammar *)
-Definition is_zero (x : v) : bool :=
+(* reflect.ValueOf(payload).IsZero() for the payload shapes of the grammar (slices and maps of a tree are non-nil) *)
+Fixpoint zero_field (x : v) : bool :=
   match x with
   | VPtr None | VNilBytes => true
-  | VLeaf LStr (Plain 0) => true
+  | VLeaf (LStr | LWStr) (Plain 0) => true
   | VOther 0%Z => true
+  | VStruct _ fs => forallb (fun f : field => zero_field (snd f)) fs
   | _ => false
+  end.
+Definition is_zero (x : v) : bool :=
+  match x with
+  | VLeaf LWStr _ => false           (* a wrapperspb message handed over by value is outside the grammar *)
+  | _ => zero_field x
   end.
 
 (* [c_wrap c]: the FILTER has a wrapper; [c_key c]: its key; [ekey]: the key of the wrapper derived for this event *)
